@@ -40,6 +40,9 @@ func matchState(tx *txfile.Tx, st SpecState) string {
 	}
 	for _, id := range st.ids() {
 		want := st.Pages[id]
+		if want.ID == ^uint64(0) {
+			continue
+		}
 		p, err := tx.Page(txfile.PageID(id))
 		if err != nil {
 			return fmt.Sprintf("page %d: %s", id, ErrKind(err))
@@ -74,6 +77,11 @@ type ImageResult struct {
 // the recovered state is unchanged by it.
 func CheckImage(img []byte, opts txfile.Options, allowed []SpecState, probe bool) (res ImageResult) {
 	res.Match = -1
+	if c := chainCycle(img); c != "" {
+		// opening would never return (and exhaust memory): report instead of calling Open
+		res.Panic = "open would hang: " + c
+		return res
+	}
 	d := simdisk.FromImage("image", img)
 	d.KeepLog = false
 	var f *txfile.File
@@ -109,14 +117,22 @@ func CheckImage(img []byte, opts txfile.Options, allowed []SpecState, probe bool
 			return
 		}
 		defer tx.Close()
+		live := LiveFromSnap(f.VerifSnapshot())
 		for i, st := range allowed {
 			d := matchState(tx, st)
+			if d == "" {
+				if ids := st.ids(); fmt.Sprint(ids) != fmt.Sprint(live) {
+					d = fmt.Sprintf("set of live pages is %s, expected %s", runsOf(live), runsOf(ids))
+				}
+			}
 			if d == "" {
 				res.Match = i
 				return
 			}
 			if i == 0 {
 				res.Diff = d
+			} else {
+				res.Diff += fmt.Sprintf(" || allowed[%d]: %s", i, d)
 			}
 		}
 	}()
@@ -213,4 +229,79 @@ func firstLine(s string) string {
 		return s[:160]
 	}
 	return s
+}
+
+// chainCycle detects a cyclic free-list / overwrite-mapping page chain in the
+// header that Open would select. The implementation walks these chains
+// without cycle detection, so opening such an image never returns.
+func chainCycle(img []byte) string {
+	if len(img) < 84 {
+		return ""
+	}
+	m0 := txfile.VerifDecodeMeta(img[:84])
+	var cands []txfile.VerifMeta
+	if m0.Valid {
+		cands = append(cands, m0)
+		ps := int(m0.PageSize)
+		if ps > 0 && len(img) >= ps+84 {
+			if m1 := txfile.VerifDecodeMeta(img[ps : ps+84]); m1.Valid {
+				cands = append(cands, m1)
+			}
+		}
+	} else {
+		for ps := 1024; ps+84 <= len(img); ps *= 2 {
+			if m1 := txfile.VerifDecodeMeta(img[ps : ps+84]); m1.Valid && int(m1.PageSize) == ps {
+				cands = append(cands, m1)
+				break
+			}
+		}
+	}
+	if len(cands) == 2 { // Open selects the newer one
+		if int64(cands[0].Txid-cands[1].Txid) > 0 {
+			cands = cands[:1]
+		} else {
+			cands = cands[1:]
+		}
+	}
+	for _, m := range cands {
+		ps := uint64(m.PageSize)
+		if ps == 0 {
+			continue
+		}
+		for _, root := range []uint64{m.Freelist, m.Wal} {
+			seen := map[uint64]bool{}
+			for id := root; id != 0; {
+				if seen[id] {
+					return fmt.Sprintf("page chain starting at %d (header txid %d) is cyclic at page %d", root, m.Txid, id)
+				}
+				seen[id] = true
+				off := id * ps
+				if off+8 > uint64(len(img)) {
+					break
+				}
+				id = uint64(0)
+				for i := 7; i >= 0; i-- {
+					id = id<<8 | uint64(img[off+uint64(i)])
+				}
+			}
+		}
+	}
+	return ""
+}
+
+// LiveFromSnap derives the set of live data pages from the allocator state:
+// every page below the data end marker that is neither free nor used by the
+// file internally.
+func LiveFromSnap(fs txfile.VerifSnap) []uint64 {
+	used := internalPages(fs)
+	for _, id := range RegionIDs(fs.DataFree) {
+		used[id] = "datafree"
+	}
+	var live []uint64
+	for id := uint64(2); id < fs.DataEnd; id++ {
+		if used[id] == "" {
+			live = append(live, id)
+		}
+	}
+	return live
 }
